@@ -2,7 +2,7 @@
    (1) op lines   `<id> create:<n>:<init> <op> ...`  -> one token per op, same format as harness/h_arena.c
    (2) image lines `<id> img=<hex> [b=…] muts=<m>,<m>…` -> load result of every mutated image, same
        format as harness/h_load.c restricted to the loader's outcome. -/
-import YaraModel.Model.Arena
+import YaraModel.Spec.Arena
 import Driver.Util
 namespace Driver.Arena
 open YaraModel.Arena
@@ -35,6 +35,9 @@ structure St where
   cfg : Cfg := {}
   k : Nat := 0          -- allocator counter
   dead : Bool := false  -- an assert fired: the process is gone
+  ax : Option AArena := none   -- abstract machine state while the line is inside the protocol (Spec/Arena.lean)
+  created : Bool := false
+  flag : String := ""
 
 def unhexD (s : String) : Bytes := (Driver.unhex s).getD []
 
@@ -148,75 +151,96 @@ def addrDependent (s : Bytes) : Bool :=
     | r :: t => t.any (fun q => q.buf == r.buf && q.off < r.off + 8 && r.off < q.off + 8) || go t
   go es
 
-def stepOp (st : St) (tok : String) : St × String :=
-  if st.dead then (st, "") else
-  let fail (e : Err) : St × String := ({ st with dead := (e == .assertFail) }, errName e)
-  let k := st.k
+def showOut : Out → String
+  | .unit => "OK"
+  | .ref r => showRef (some r)
+  | .found r => showRef r
+  | .notFound => "notfound"
+
+/-- a client-operation token as an `Op` of the model (none: not an operation token / malformed) -/
+def parseOp (tok : String) : Option Op :=
   match Driver.parts tok with
-  | ["create", n, init] => ({ st with a := create (n.toNat?.getD 0) (init.toNat?.getD 0) }, "OK")
-  | ["move", m] => ({ st with cfg := { alwaysMove := m == "1" } }, "OK")
-  | ["w", b, hx] =>
-    match allocMem st.cfg (addr k) st.a (b.toNat?.getD 0) false (unhexD hx) with
-    | .ok (a, r) => ({ st with a := a, k := k + 1 }, showRef (some r))
-    | .error e => fail e
-  | ["z", b, size] =>
-    match allocMem st.cfg (addr k) st.a (b.toNat?.getD 0) true (zeros (size.toNat?.getD 0)) with
-    | .ok (a, r) => ({ st with a := a, k := k + 1 }, showRef (some r))
-    | .error e => fail e
+  | ["w", b, hx] => some (.write (b.toNat?.getD 0) (unhexD hx))
+  | ["z", b, size] => some (.zalloc (b.toNat?.getD 0) (size.toNat?.getD 0))
   | ["s", b, size, offs] =>
-    let offs := if offs == "-" then [] else (offs.splitOn ".").filterMap (·.toNat?)
-    let b := b.toNat?.getD 0
-    match allocMem st.cfg (addr k) st.a b true (zeros (size.toNat?.getD 0)) with
-    | .ok (a, r) => ({ st with a := makeRelocs a b r.off offs, k := k + 1 }, showRef (some r))
-    | .error e => fail e
-  | ["r", b, off] =>
-    match step st.cfg (addr k) st.a (.reloc (b.toNat?.getD 0) (off.toNat?.getD 0)) with
-    | .ok a => ({ st with a := a }, "OK")
-    | .error e => fail e
+    some (.struct (b.toNat?.getD 0) (size.toNat?.getD 0) (if offs == "-" then [] else (offs.splitOn ".").filterMap (·.toNat?)))
+  | ["r", b, off] => some (.reloc (b.toNat?.getD 0) (off.toNat?.getD 0))
   | ["sp", slot, target] =>
     match parseRef slot, parseRef target with
-    | some (some s), some t =>
-      match step st.cfg (addr k) st.a (.setPtr s t) with
-      | .ok a => ({ st with a := a }, "OK")
-      | .error e => fail e
-    | _, _ => (st, "BADOP")
-  | ["p", b, target] =>
-    match parseRef target with
-    | some t =>
-      let b := b.toNat?.getD 0
-      match refToPtr st.a.bufs t with
-      | .error e => fail e
-      | .ok p =>
-        match allocMem st.cfg (addr k) st.a b false (leBytes 8 p) with
-        | .ok (a, r) => ({ st with a := makeRelocs a b 0 [r.off], k := k + 1 }, showRef (some r))
-        | .error e => fail e
-    | none => (st, "BADOP")
+    | some (some s), some t => some (.setPtr s t)
+    | _, _ => none
+  | ["p", b, target] => (parseRef target).map (fun t => .ptr (b.toNat?.getD 0) t)
   | ["k", at_, hx] =>
     match parseRef at_ with
-    | some (some r) =>
-      match step st.cfg (addr k) st.a (.poke r (unhexD hx)) with
-      | .ok a => ({ st with a := a }, "OK")
-      | .error e => fail e
-    | _ => (st, "BADOP")
+    | some (some r) => some (.poke r (unhexD hx))
+    | _ => none
   | ["ref", slot] =>
     match parseRef slot with
-    | some (some s) =>
-      let (found, r) := ptrToRef st.a.bufs (getSlot st.a s)
-      (st, if found then showRef r else "notfound")
-    | _ => (st, "BADOP")
+    | some (some s) => some (.ref s)
+    | _ => none
+  | ["rt", target] => (parseRef target).map (fun t => .rt t)
+  | ["rs", slot, target, _] =>
+    match parseRef slot, parseRef target with
+    | some (some s), some t => some (.regPtr s t)
+    | _, _ => none
+  | _ => none
+
+/-- the abstract machine of Spec/Arena.lean run next to the model (the executable shadow of Thm/C19 `run_abs`):
+    while the sequence stays inside the protocol (`astep` defined, allocator answer admissible) the model's
+    observation and abstract content must be the abstract machine's; (new shadow state, flags) -/
+def shadow (st : St) (nb : Nat) (op : Op) (res : Except Err (Arena × Out)) : Option AArena × String :=
+  match st.ax with
+  | none => (none, st.flag)
+  | some x =>
+    match astep x op with
+    | none => (none, st.flag)
+    | some (x1, o) =>
+      if !decide (StepFresh st.cfg nb st.a op) then (none, st.flag ++ ":NOADM") else
+      match res with
+      | .ok (a1, o1) =>
+        if o1 == o && YaraModel.Arena.abs a1 == x1 then (if a1.unspec then none else some x1, st.flag)
+        else (none, st.flag ++ ":SPECDIFF")
+      | .error .insufficientMemory => (none, st.flag)
+      | .error _ => (none, st.flag ++ ":SPECDIFF")
+
+def stepOp (st : St) (tok : String) : St × String :=
+  if st.dead then (st, "") else
+  let fail (st : St) (e : Err) : St × String := ({ st with dead := (e == .assertFail), ax := none }, errName e)
+  let k := st.k
+  match parseOp tok with
+  | some op =>
+    let res := exec st.cfg (addr k) st.a op
+    let (ax, flag) := shadow st (addr k) op res
+    let st := { st with ax := ax, flag := flag, k := k + 1 }
+    match res with
+    | .ok (a, o) => ({ st with a := a }, showOut o)
+    | .error e => fail st e
+  | none =>
+  match Driver.parts tok with
+  | ["create", n, init] =>
+    let n := n.toNat?.getD 0
+    let init := init.toNat?.getD 0
+    ({ st with a := create n init, created := true,
+               ax := if !st.created && n ≤ maxBuffers && init > 0 then some (aCreate n) else none }, "OK")
+  | ["move", m] => ({ st with cfg := { alwaysMove := m == "1" } }, "OK")
   | ["save"] =>
     match saveFull st.a with
-    | .error _ => ({ st with dead := true }, "ASSERT")
-    | .ok (img, a') => ({ st with a := a' }, if st.a.unspec then "S=UNSPEC" else "S=" ++ Driver.hex img)
+    | .error _ => ({ st with dead := true, flag := if st.ax.isSome then st.flag ++ ":SPECDIFF" else st.flag, ax := none }, "ASSERT")
+    | .ok (img, a') =>
+      let good := match st.ax with
+        | some x => saveOfAbs x == img && a' == st.a
+        | none => true
+      ({ st with a := a', flag := if good then st.flag else st.flag ++ ":SPECDIFF" },
+        if st.a.unspec then "S=UNSPEC" else "S=" ++ Driver.hex img)
   | ["load", m, seed, max] =>
     match saveFull st.a with
-    | .error _ => ({ st with dead := true }, "ASSERT")
+    | .error _ => ({ st with dead := true, ax := none }, "ASSERT")
     | .ok (img, a0) =>
     let st := { st with a := a0 }
     match mutate img m with
     | none => (st, "BADOP")
     | some s =>
-      if addrDependent s then (st, "L=ADDRDEP") else
+      if addrDependent s then ({ st with ax := none }, "L=ADDRDEP") else
       let alloc := fun i => addr (k + 1000 + i)
       let r := load loaderCfg alloc s
       let via := loadVia loaderCfg alloc (chunked (seed.toNat?.getD 0) (max.toNat?.getD 0) s)
@@ -225,6 +249,12 @@ def stepOp (st : St) (tok : String) : St × String :=
         | .error e, .error f => e == f
         | _, _ => false
       let t := if agree then "" else ":CHUNKDIFF"
+      -- the shadow of Thm/C08 `load_save_reachable`: inside the protocol an intact image loads and re-saves identically
+      let rt_ok := !(st.ax.isSome && m == "full") ||
+        (match r with
+         | .ok a' => YaraModel.Arena.abs a' == YaraModel.Arena.abs st.a && save a' == img
+         | .error _ => false)
+      let st := if rt_ok then st else { st with flag := st.flag ++ ":SPECDIFF" }
       match r with
       | .error e => if e == .assertFail then ({ st with dead := true }, "ASSERT") else (st, "L=" ++ errName e ++ t)
       | .ok a' =>
@@ -233,11 +263,17 @@ def stepOp (st : St) (tok : String) : St × String :=
         | .ok (img', _) => (st, "L=OK:" ++ (if st.a.unspec then "UNSPEC" else Driver.hex img') ++ ":" ++ readTrace s ++ t)
   | _ => (st, "BADOP")
 
+/-- one output token per op; the last token `OPSOK=<k>[:flags]` says that the first `k` tokens of the line were
+    produced inside the protocol of Thm/C19 (there the outputs are a function of the op list alone: whatever the
+    initial size and the always-move setting) -/
 def handleOps (id : String) (ops : List String) : String :=
-  let rec go (st : St) : List String → List String
-    | [] => []
-    | t :: ts => let (st', o) := stepOp st t; if o == "" then go st' ts else o :: go st' ts
-  " ".intercalate (id :: go {} ops)
+  let rec go (st : St) (pos okc : Nat) : List String → List String
+    | [] => [s!"OPSOK={okc}{st.flag}"]
+    | t :: ts =>
+      let (st', o) := stepOp st t
+      if o == "" then go st' pos okc ts
+      else o :: go st' (pos + 1) (if st'.ax.isSome then pos + 1 else okc) ts
+  " ".intercalate (id :: go {} 0 0 ops)
 
 /-- expand "p<a>-<b>" ranges; returns (label, mutation) pairs grouped per spec item -/
 def rle (items : List (Nat × String)) : List String :=
